@@ -163,6 +163,13 @@ def in_child(fn, arg, timeout_s=900):
         code = 0
         try:
             os.close(r)
+            try:  # a runaway workload gets a MemoryError instead of inviting the OOM killer
+                import resource
+
+                lim = env_int("VERIF_CHILD_MEM_GB", 6) * (1 << 30)
+                resource.setrlimit(resource.RLIMIT_AS, (lim, lim))
+            except Exception:
+                pass
             try:
                 payload = pickle.dumps(("ok", fn(arg)))
             except BaseException as e:  # noqa
